@@ -238,7 +238,7 @@ def encode_float(float_number: float | None) -> int:
     return encoded_int
 
 
-def decode_number(data_raw: int, bit_offset: int, bit_length: int, signed: bool, resolution: float, min_value: float, max_value: float) -> Optional[float]:
+def decode_number(data_raw: int, bit_offset: int, bit_length: int, signed: bool, resolution: float, min_value: float, max_value: float, offset: float = 0) -> Optional[float]:
     """
     The function follows specific decoding rules based on the bit length of the number:
     - For numbers using 2 or 3 bits, the maximum value indicates the field is not present (None is returned).
@@ -260,8 +260,10 @@ def decode_number(data_raw: int, bit_offset: int, bit_length: int, signed: bool,
         if number_int == max_positive_value:
             return None
 
-    # adjust resolution
+    # adjust resolution and apply the field's offset (value = raw * resolution + offset)
     number_int *= resolution
+    if offset:
+        number_int += offset
 
     # raw * resolution is a float: allow for its rounding error when comparing with the range limits
     # (e.g. 65532 * 0.1 == 6553.200000000001 must not be rejected by a maximum of 6553.2)
@@ -277,7 +279,8 @@ def encode_number(
     value: float | None,
     bit_length: int,
     signed: bool,
-    resolution: float
+    resolution: float,
+    offset: float = 0
 ) -> int:
     """
     Encodes a number into a bitfield within an integer.
@@ -296,7 +299,7 @@ def encode_number(
             return (1 << bit_length) - 1
 
     # Scale using resolution
-    number_int = int(round(value / resolution))
+    number_int = int(round((value - offset) / resolution))
 
     # Check bounds
     if signed:
